@@ -452,8 +452,8 @@ func ruleAdmissionThroughEntries(c *Check, w *World, tb *TB) {
 		return
 	}
 	for _, en := range []struct {
-		name          string
-		suiteP, inpP  int
+		name         string
+		suiteP, inpP int
 	}{{"GenerateOCRA", 1, 2}, {"ValidateOCRA", 2, 3}} {
 		ef := w.Func(OtpPath, en.name)
 		if ef == nil {
